@@ -17,7 +17,14 @@ from . import c09
 QUICK_VARIANTS = ["o1", "noasm", "x1", "x2", "seqlong"]
 ALL_VARIANTS = ["o1", "noasm", "x1", "x2", "nobmi2", "seqshort", "seqlong", "nolegacy"]
 PATHS = [("oneshot", "-"), ("dctx", "-"), ("stream:1:0", "-"), ("stream:5:3", "-"), ("stream:0:1000", "-"), ("stream:1000:1", "-"),
-         ("stableout:7", "-"), ("continue", "-"), ("inplace", "-"), ("stream:3:0", "1004:1"), ("dctx", "1004:1")]
+         ("stableout:7", "-"), ("continue", "-"), ("inplace", "-"), ("stream:3:0", "1004:1"), ("dctx", "1004:1"),
+         # round 2: destination capacity EXACTLY the content size (the other paths leave 8 spare bytes): last-block literal buffer placement,
+         # end-of-buffer sequence execution
+         ("oneshot@exact", "-"), ("stream:5:3@exact", "-"), ("stableout:7@exact", "-"),
+         # whole input and whole output in one ZSTD_decompressStream call: the single-pass shortcut when the content size is declared
+         ("stream:0:0", "-"),
+         # one DCtx with a history: abandoned streaming decode, single call, session reset, streaming, buffer-less (must all agree)
+         ("reuse", "-")]
 
 
 def decodecorpus_frames(ctx, n, seed):
@@ -209,6 +216,11 @@ def run(ctx):
         r = codec.parse_ok(cout.get(i, "ERR missing"))
         if r[0] == "OK":
             dframes.append(("dict " + i, db, r[1], x))
+    # (e2) round 2: dictionaries AND frames from the independent writer: first blocks with Treeless literals / Repeat_Mode tables / repeat
+    #      offsets of the dictionary, offsets into the dictionary content beyond Window_Size while the frame is still shorter than the window
+    wd = c04_gen.gen_dict_frames(rng, 14 if ctx.quick else 120)
+    ctx.notes["writer_dict_frames"] = len(wd)
+    dframes += [("writer " + n, d, f, x) for n, f, x, d in wd]
     dres = cd0.model([("g%d" % i, "nostrict", db, f) for i, (name, db, f, x) in enumerate(dframes)])
     dvalid = []
     for i, (name, db, f, x) in enumerate(dframes):
@@ -217,6 +229,9 @@ def run(ctx):
             dvalid.append((i, name, db, f, x, codec.trace_signature(codec.parse_trace(m[2]))))
         elif m[0] == "OK":
             ctx.violation(dict(source=name, dict_hex=db.hex()[:40000], frame_hex=f.hex()[:40000]), what="R decodes a dictionary frame to other bytes than the compressor's input")
+        elif name.startswith("writer"):
+            ctx.violation(dict(source=name, dict_hex=db.hex()[:40000], frame_hex=f.hex()[:40000], result="R: ERR %s site %s" % (m[1], m[2])),
+                          what="reference decoder R rejects a dictionary frame of the independent writer (%s at site %s): R or the writer is wrong" % (m[1], m[2]), no_input=True)
     ctx.notes["dict_frames_R_accepts"] = len(dvalid)
     DPATHS = ["usingDict", "ddict", "ddictwarm", "ddictref", "loaddict", "multiddict", "multiddict2", "stream:5:3", "continue"]
     # R first: only frames R accepts are in the quantifier
@@ -248,7 +263,11 @@ def run(ctx):
             for pth, fl in PATHS:
                 if pth == "stream:1000:1" and len(y) > 1000000:
                     continue        # one output byte per call: the harness gives up after 2,000,000 calls
-                lines.append("D f%d|%s|%s %s %s - %s %d" % (i, pth, fl, pth, fl, codec.hx(f), len(y) + 8))
+                if len(y) > 4000000 and pth.split("@")[0] in ("stream:1:0", "stream:5:3", "stream:3:0"):
+                    continue        # same guard, input side
+                lines.append("D f%d|%s|%s %s %s - %s %d" % (i, pth, fl, pth.split("@")[0], fl, codec.hx(f), len(y) + (0 if pth.endswith("@exact") else 8)))
+            if len(y) == 0:     # empty content: NULL destination of capacity 0 (one-shot and streaming)
+                lines.append("D f%d|nulldst|- nulldst - - %s 0" % (i, codec.hx(f)))
         for i, name, db, f, y, sig in dvalid:
             for pth in DPATHS:
                 lines.append("D g%d|%s|- %s - %s %s %d" % (i, pth, pth, codec.hx(db), codec.hx(f), len(y) + 8))
